@@ -9,7 +9,8 @@ structure LI (c : Conn) : Prop where
   openP : c.opens ≥ 1 → c.pSet = true ∧ c.kind ≠ .udp ∧ c.kind ≠ .dial
   phase : c.kind ≠ .dial → (c.add = 0 ∨ c.add = 1 ∨ c.add = 6) → c.pSet = false
   phase2 : c.add = 2 → c.opens = 0 ∧ c.pSet = true
-  phase1 : (c.add = 1 ∨ c.add = 2) → c.closed = true → c.raced = true
+  phase1 : c.add = 2 → c.closed = true → c.raced = true
+  phase1a : c.add = 1 → c.closed = false
   addK : c.add ≠ 0 → c.kind ≠ .dial
   addK2 : (c.add = 1 ∨ c.add = 2 ∨ c.add = 3 ∨ c.add = 4 ∨ c.add = 6) → (c.kind = .add ∨ c.kind = .acc)
   vis0 : c.visible = true → c.kind = .dial ∨ c.add ≥ 3
@@ -21,7 +22,7 @@ structure LI (c : Conn) : Prop where
   doneOk : c.closed = true → c.td = none →
     c.cause = some c.cerr ∧ c.fdOpen = false ∧ c.dial ≠ .pending ∧
     (c.kind ≠ .udp → c.unmanaged = false → c.closeN = 1) ∧ (c.add ≠ 4 → c.inTable = false)
-  unmanagedOk : c.unmanaged = true → c.pSet = true → c.raced = true
+  unmanagedOk : c.unmanaged = true → c.pSet = false
   pOpen : c.pSet = true → (c.kind = .add ∨ c.kind = .acc) → c.add ≠ 2 → c.opens ≥ 1
   pOpenS : c.pSet = true → c.kind = .sess → c.opens ≥ 1
   early : c.early = true → c.raced = true
@@ -42,7 +43,7 @@ theorem li_init (k : Kind) : LI (mk k) := by
 macro "li_auto" h:ident c:ident : tactic => `(tactic| (
   have hh := $h
   obtain ⟨a1, a2, a3, a4, a5, a6, a7, a8, a9, a10, a11, a12, a13, a14, a15, a16, a17, a18, a19, a20, a21, a22, a23, a24,
-    a25, a26, a27, a28⟩ := hh
+    a25, a26, a27, a28, a29⟩ := hh
   constructor <;> simp_all <;> first
     | omega
     | grind
@@ -50,7 +51,7 @@ macro "li_auto" h:ident c:ident : tactic => `(tactic| (
 
 /-- whoever can flip the flag while `addConn` is between its closed test and its open notification is the caller of
     `AddConn` itself: accepted conns are not reachable by anybody else before they were announced -/
-theorem flip_who (c : Conn) (h : LI c) (hg : c.visible = true ∨ c.kind = .add) : (c.add = 1 ∨ c.add = 2) → c.kind = .add := by
+theorem flip_who (c : Conn) (h : LI c) (hg : c.visible = true ∨ c.kind = .add) : c.add = 2 → c.kind = .add := by
   intro ha
   rcases hg with hv | hk
   · rcases h.vis0 hv with hd | h3
@@ -58,7 +59,13 @@ theorem flip_who (c : Conn) (h : LI c) (hg : c.visible = true ∨ c.kind = .add)
     · omega
   · exact hk
 
-theorem li_flip (c : Conn) (e : Err) (st : Bool) (h : LI c) (hr : (c.add = 1 ∨ c.add = 2) → c.kind = .add) :
+theorem vis_not1 (c : Conn) (h : LI c) (hv : c.visible = true) : c.add ≠ 1 := by
+  intro h1
+  rcases h.vis0 hv with hd | h3
+  · exact absurd hd (h.addK (by omega))
+  · omega
+
+theorem li_flip (c : Conn) (e : Err) (st : Bool) (h : LI c) (hr : c.add = 2 → c.kind = .add) (hn1 : c.add ≠ 1) :
     LI (flip c e st) := by
   unfold flip
   split
@@ -74,7 +81,7 @@ theorem teardown_early (c : Conn) (h : LI c) (e : Err) (he : c.td = some e)
   obtain ⟨hp, hu, ho, hd⟩ := hx
   have hcl := (h.tdOk e he).1
   by_cases h2 : c.add = 2
-  · exact h.phase1 (Or.inr h2) hcl
+  · exact h.phase1 h2 hcl
   · cases hk : c.kind with
     | add => have := h.pOpen hp (Or.inl hk) h2; omega
     | acc => have := h.pOpen hp (Or.inr hk) h2; omega
@@ -93,7 +100,7 @@ theorem li_teardown (c : Conn) (h : LI c) : LI (teardown c) := by
     by_cases hp : c.pSet = true ∧ c.kind ≠ .udp <;> by_cases hd : c.dial = .pending <;>
       simp only [hp, hd, ↓reduceIte] <;> li_auto h c
 
-theorem li_timerW (c : Conn) (h : LI c) (hw : c.wT = true) (hr : (c.add = 1 ∨ c.add = 2) → c.kind = .add) :
+theorem li_timerW (c : Conn) (h : LI c) (hw : c.wT = true) (hr : c.add = 2 → c.kind = .add) (hn1 : c.add ≠ 1) :
     LI (timerW c) := by
   unfold timerW
   split
@@ -108,7 +115,8 @@ theorem li_timerW (c : Conn) (h : LI c) (hw : c.wT = true) (hr : (c.add = 1 ∨ 
     li_auto h c
 
 theorem li_dialed (c : Conn) (h : LI c) (hkd : c.kind = .dial) (hk : c.kres.isSome = true) : LI (dialed c) := by
-  have hr : (c.add = 1 ∨ c.add = 2) → c.kind = .add := fun ha => absurd hkd (h.addK (by omega))
+  have hr : c.add = 2 → c.kind = .add := fun ha => absurd hkd (h.addK (by omega))
+  have hn1 : c.add ≠ 1 := fun h1 => absurd hkd (h.addK (by omega))
   unfold dialed
   split
   · exact h
@@ -117,7 +125,7 @@ theorem li_dialed (c : Conn) (h : LI c) (hkd : c.kind = .dial) (hk : c.kres.isSo
     have hlog : LI { c with log := c.log + 1 } := by li_auto h c
     dsimp only
     split
-    · next e he => exact li_flip _ e true hlog hr
+    · next e he => exact li_flip _ e true hlog hr hn1
     · next hne =>
       split
       · exact hlog
@@ -154,6 +162,7 @@ theorem li_addTable (c : Conn) (h : LI c) (hg : ((c.kind == .add || c.kind == .a
     LI (addTable c) := by
   unfold addTable; li_auto h c
 
+set_option maxHeartbeats 800000 in
 theorem li_addReg (c : Conn) (h : LI c) (hg : ((c.kind == .add || c.kind == .acc) && c.add == 4) = true) :
     LI (addReg c) := by
   unfold addReg; split <;> li_auto h c
@@ -221,14 +230,16 @@ theorem li_step (c c' : Conn) (a : Act) (h : LI c) (hs : step c a = some c') : L
     next hg => simp only [Bool.and_eq_true, beq_iff_eq] at hg; exact li_dialed c h hg.1.1 hg.2
   | flip e st =>
     simp only [step] at hs; split at hs <;> cases hs
-    next hg => simp only [Bool.or_eq_true, beq_iff_eq] at hg; exact li_flip c e st h (flip_who c h hg)
+    next hg =>
+      simp only [Bool.and_eq_true, Bool.or_eq_true, beq_iff_eq, bne_iff_ne, ne_eq] at hg
+      exact li_flip c e st h (flip_who c h hg.1) hg.2
   | teardown => simp only [step] at hs; split at hs <;> cases hs; exact li_teardown c h
   | timerR =>
     simp only [step] at hs; split at hs <;> cases hs
-    next hg => simp only [Bool.and_eq_true] at hg; exact li_flip c _ true h (flip_who c h (Or.inl hg.2))
+    next hg => simp only [Bool.and_eq_true] at hg; exact li_flip c _ true h (flip_who c h (Or.inl hg.2)) (vis_not1 c h hg.2)
   | timerW =>
     simp only [step] at hs; split at hs <;> cases hs
-    next hg => simp only [Bool.and_eq_true] at hg; exact li_timerW c h hg.1 (flip_who c h (Or.inl hg.2))
+    next hg => simp only [Bool.and_eq_true] at hg; exact li_timerW c h hg.1 (flip_who c h (Or.inl hg.2)) (vis_not1 c h hg.2)
   | setDl r w => simp only [step] at hs; split at hs <;> cases hs; next hg => exact li_setDl c r w h hg
   | clearW => simp only [step] at hs; split at hs <;> cases hs; exact li_clearW c h
   | setQ q => simp only [step] at hs; split at hs <;> cases hs; exact li_setQ c q h
